@@ -210,6 +210,36 @@ func init() {
 		if s, ok := args[0].(StringV).Concrete(); ok {
 			tag = s
 		}
+		// %w: a real *fmt.wrapError{msg, err} so that errors.Unwrap / Is see the wrapped operand
+		if k := strings.Count(tag, "%w"); k == 1 {
+			if fp := e.prog.ImportedPackage("fmt"); fp != nil {
+				if tn, ok := fp.Members["wrapError"].(*ssa.Type); ok {
+					va := args[1].(SliceV)
+					// position of the %w operand among the verbs
+					pos, seen := -1, 0
+					for i := 0; i+1 < len(tag); i++ {
+						if tag[i] == '%' {
+							if tag[i+1] == '%' {
+								i++
+								continue
+							}
+							if tag[i+1] == 'w' {
+								pos = seen
+							}
+							seen++
+						}
+					}
+					if pos >= 0 && pos < va.Len {
+						if w, ok := st.sliceGet(va, pos).(IfaceV); ok {
+							sv := zero(tn.Type()).(*StructV)
+							sv.F[0] = mkString("<" + tag + ">")
+							sv.F[1] = w
+							return IfaceV{T: types.NewPointer(tn.Type()), V: Ptr{Obj: st.alloc(sv)}}, true
+						}
+					}
+				}
+			}
+		}
 		return e.opaqueErr(tag), true
 	}
 	exact["fmt.Sprintf"] = func(e *Engine, st *State, fn *ssa.Function, args []Value, retTo *ssa.Call) (Value, bool) {
